@@ -12,7 +12,44 @@ pub fn encodings() -> Vec<(u8, Option<u8>)> {
   v
 }
 
-pub fn run(_sub: &str, opts: &Opts, w: &mut dyn Write) {
+/// operand values on nibble/byte carry and BCD edges
+const EDGE: [u8; 24] = [0x00, 0x01, 0x02, 0x07, 0x08, 0x09, 0x0a, 0x0f, 0x10, 0x11, 0x1f, 0x3f, 0x40, 0x66, 0x7f, 0x80, 0x81, 0x90, 0x99, 0x9a, 0xa0, 0xf0, 0xfe, 0xff];
+
+fn grid_case(bytes: [u8; 3], a: u8, f: u8, operand: u8) -> Case {
+  let ip = 0xc000u16;
+  let mut pre: Vec<(u16, u8)> = vec![(0xc800, operand)];
+  for k in 0..3u16 { pre.push((ip + k, bytes[k as usize])); }
+  Case { cfg: (0x03, 1, 3), regs: [((a as u32) << 8) | f as u32, (operand as u32) << 8, 0x1234, 0xc800, 0xdff0, ip as u32],
+         pre, rompatch: vec![], probes: vec![0xc800], bytes }
+}
+
+/// small operand domains enumerated completely: every A x every flag nibble for the unary / flag instructions and DAA,
+/// every A x edge operands x carry-in for each binary ALU operation in its register, immediate and (HL) form
+fn grid(opts: &Opts, w: &mut dyn Write) {
+  let (shard, nshards) = opts.shard();
+  let mut idx = 0usize;
+  let unary: [(u8, u8); 26] = [(0x27, 0), (0x2f, 0), (0x37, 0), (0x3f, 0), (0x07, 0), (0x0f, 0), (0x17, 0), (0x1f, 0), (0x3c, 0), (0x3d, 0),
+    (0xcb, 0x07), (0xcb, 0x0f), (0xcb, 0x17), (0xcb, 0x1f), (0xcb, 0x27), (0xcb, 0x2f), (0xcb, 0x37), (0xcb, 0x3f),
+    (0xcb, 0x47), (0xcb, 0x7f), (0xcb, 0x87), (0xcb, 0xbf), (0xcb, 0xc7), (0xcb, 0xff), (0xf1, 0), (0xf5, 0)];
+  for &(b0, b1) in unary.iter() { for a in 0..=255u8 { for fn_ in 0..16u8 {
+    idx += 1;
+    if idx % nshards != shard { continue; }
+    let mut c = grid_case([b0, b1, 0], a, fn_ << 4, a ^ 0x5a);
+    if b0 == 0xf1 { c.regs[4] = 0xc800; c.pre.push((0xc800, fn_ << 4 | (a & 0x0f))); c.pre.push((0xc801, a)); }   // POP AF: F low nibble must be masked
+    run_case("c05", &c, w);
+  }}}
+  let operands: Vec<u8> = if opts.thorough { (0..=255u8).collect() } else { EDGE.to_vec() };
+  for y in 0..8u8 { for form in 0..3 { for a in 0..=255u8 { for &v in operands.iter() { for cy in 0..2u8 {
+    idx += 1;
+    if idx % nshards != shard { continue; }
+    let bytes = match form { 0 => [0x80 + y * 8, 0, 0], 1 => [0xc6 + y * 8, v, 0], _ => [0x86 + y * 8, 0, 0] };
+    let c = grid_case(bytes, a, (cy << 4) | ((a & 1) << 7) | ((v & 1) << 5), v);
+    run_case("c05", &c, w);
+  }}}}}
+}
+
+pub fn run(sub: &str, opts: &Opts, w: &mut dyn Write) {
+  if sub == "grid" { return grid(opts, w); }
   let mut rng = Rng::new(opts.seed ^ 0xc05);
   let (shard, nshards) = opts.shard();
   let per = if opts.thorough { 4000 } else { 120 };
